@@ -699,6 +699,14 @@ class GeoBox(GeoBoxBase):
         if region.crs is None:
             raise ValueError("Must supply geo-resgistered region")
 
+        if self._crs is not None and region.crs != self._crs:
+            # straight edges of the region are curved in our CRS: add points along
+            # them, corner points alone do not bound the projected region
+            bbox = region.boundingbox
+            step = max(bbox.span_x, bbox.span_y) / 128
+            if step > 0:
+                region = region.to_crs(self._crs, resolution=step)
+
         pix_bbox = self.project(region).boundingbox.round()
         nx, ny = (max(1, int(span)) for span in (pix_bbox.span_x, pix_bbox.span_y))
         tx, ty, *_ = pix_bbox.bbox
